@@ -15,8 +15,11 @@
 (*   "perms"    every ordering of every bag that has exactly one valid      *)
 (*              arrangement, then to_string                 (C12)           *)
 (*   "removal"  up to Depth-1 accepted adds, one removal, one probe (C11)    *)
+(*   "afterfail" accepted adds, one refused call, any one operation, to_string (C10) *)
 (*   "cover"    one shortest valid word through every follow edge of the    *)
-(*              content model's automaton, in order, then to_string (C02)  *)
+(*              content model's automaton and every cycle taken twice, in  *)
+(*              order, then to_string (C02)                                 *)
+(*   "wordrem"  such a word, then one removal, then to_string (C11, C06)    *)
 (***************************************************************************)
 EXTENDS SchemaDerived, Report, Naturals, Sequences, FiniteSets
 
@@ -24,11 +27,14 @@ CONSTANTS Types,      \* complex type names handled by this run
           SigmaOf,    \* [type -> child names used] (subset of the type's alphabet)
           MultiOf,    \* [type -> names with more than one leaf in the particle tree] (forward is meaningful)
           RareSigmaOf,\* [type -> names used by the rare operations]
+          RemSigmaOf, \* [type -> names used by the removal family]
+          RemAddsOf,  \* [type -> number of accepted adds before the removal]
           Chks,       \* values of xsd_check to generate for
           Families,   \* subset of {"uniform","words","perms","removal"}
           DepthOf,    \* [type -> depth of the uniform / removal families]
           WordLenOf,  \* [type -> length bound of the words / perms families]
-          MaxPerSym, MaxRare,
+          MaxPerSym, MaxRare, PlanLen,
+          PlanStrideOf, \* [type -> k]: the cover / wordrem families use every k-th follow edge (1 = all)
           Ops         \* subset of {"add","fwd","remove","replace","tostring","tostring_ic","dotelem","dotnone"}
 
 NoFwd == 0 - 1
@@ -46,6 +52,8 @@ FD == ModelOf[T].FD
 Sigma == SigmaOf[T]
 Multi == MultiOf[T]
 RareSigma == RareSigmaOf[T]
+RemSigma == RemSigmaOf[T]
+RemAdds == RemAddsOf[T]
 Depth == DepthOf[T]
 WordLen == WordLenOf[T]
 
@@ -59,14 +67,19 @@ LeafCount(a) == Cardinality({j \in DOMAIN Leaves[T] : Leaves[T][j] = a})
 
 ExpectAdd(a) == IF Chk THEN Ext(A, P, FD, Append(ins, a)) ELSE TRUE
 
+\* the valid words supplied by the cover / wordrem families: one per follow edge, and every cycle taken twice,
+\* bounded in length so that one pathological type cannot dominate
+PlanWords(t) == LET M == ModelOf[t].A  st == PlanStrideOf[t]
+                IN {x \in WordsOfPaths(M, EdgeCoverPathsS(M, st) \cup PumpPathsS(M, st)) : Len(x) <= PlanLen}
+
 Init == /\ T \in Types /\ Chk \in Chks /\ Family \in Families
-        /\ (Family \in {"perms", "removal"} => Chk)   \* valid words are also supplied to unchecked elements (C18: same bytes)
+        /\ (Family \in {"perms", "removal", "afterfail", "wordrem"} => Chk)   \* valid words are also supplied to unchecked elements (C18: same bytes)
         /\ ins = <<>> /\ hist = <<>> /\ rare = 0
-        /\ plan \in (IF Family = "cover" THEN EdgeCoverWords(ModelOf[T].A) ELSE {<<>>})
+        /\ plan \in (IF Family \in {"cover", "wordrem"} THEN PlanWords(T) ELSE {<<>>})
 Fixed == UNCHANGED <<T, Chk, Family, plan>>
 
 AddOp(a, f) ==
-  /\ (Family = "cover" \/ Count(ins, a) < MaxPerSym)
+  /\ (Family \in {"cover", "wordrem"} \/ Count(ins, a) < MaxPerSym)
   /\ LET ok == ExpectAdd(a) IN
      /\ ins' = IF ok THEN Append(ins, a) ELSE ins
      /\ hist' = Append(hist, [op |-> "add", sym |-> a, fwd |-> f, idx |-> 0, ic |-> FALSE,
@@ -76,9 +89,12 @@ RemoveOp(i) ==
   /\ ins' = Without(ins, i)
   /\ hist' = Append(hist, [op |-> "remove", sym |-> "", fwd |-> NoFwd, idx |-> i, ic |-> FALSE, exp |-> "ok"])
   /\ UNCHANGED rare
+\* replacing by a child of another name is accepted exactly when the resulting bag stays completable
+ExpectReplace(i, a) == IF Chk THEN Ext(A, P, FD, Subst(ins, i, a)) ELSE TRUE
 ReplaceOp(i, a) ==
-  /\ ins' = Subst(ins, i, a)
-  /\ hist' = Append(hist, [op |-> "replace", sym |-> a, fwd |-> NoFwd, idx |-> i, ic |-> FALSE, exp |-> "any"])
+  /\ ins' = IF ExpectReplace(i, a) THEN Subst(ins, i, a) ELSE ins
+  /\ hist' = Append(hist, [op |-> "replace", sym |-> a, fwd |-> NoFwd, idx |-> i, ic |-> FALSE,
+                          exp |-> IF ExpectReplace(i, a) THEN "any" ELSE "reject"])
   /\ rare' = rare + 1
 ToStr(ic) ==
   /\ UNCHANGED ins
@@ -88,7 +104,8 @@ ToStr(ic) ==
 DotElem(a) ==
   /\ IF Count(ins, a) > 0 THEN ins' = ins
      ELSE ins' = IF ExpectAdd(a) THEN Append(ins, a) ELSE ins
-  /\ hist' = Append(hist, [op |-> "dotelem", sym |-> a, fwd |-> NoFwd, idx |-> 0, ic |-> FALSE, exp |-> "any"])
+  /\ hist' = Append(hist, [op |-> "dotelem", sym |-> a, fwd |-> NoFwd, idx |-> 0, ic |-> FALSE,
+                          exp |-> IF Count(ins, a) = 0 /\ ~ExpectAdd(a) THEN "reject" ELSE "any"])
   /\ rare' = rare + 1
 DotNone(a) ==
   /\ ins' = IF Count(ins, a) > 0 THEN Without(ins, First(ins, a)) ELSE ins
@@ -128,16 +145,43 @@ Cover ==
   /\ ~Ended
   /\ IF Len(hist) < Len(plan) THEN AddOp(plan[Len(hist) + 1], NoFwd) ELSE ToStr(FALSE)
 
-\* removal: accepted adds, then exactly one removal, then one probe of any kind
+\* wordrem: a valid word supplied in order, then one removal (any child), then to_string   (C11 / C06 on documents
+\* as users build them: complete, then edited)
+WordRem ==
+  /\ ~Ended
+  /\ IF Len(hist) < Len(plan) THEN AddOp(plan[Len(hist) + 1], NoFwd)
+     ELSE IF Len(hist) = Len(plan) THEN \E i \in DOMAIN ins : RemoveOp(i)
+     ELSE ToStr(FALSE)
+
+\* removal: up to RemAdds accepted adds (names of RemSigma), then exactly one removal, then one probe
 Removed == \E j \in DOMAIN hist : hist[j].op = "remove"
 Removal ==
-  /\ Len(hist) < Depth + 1
-  /\ IF ~Removed
-     THEN \/ (Len(hist) < Depth - 1 /\ \E a \in Sigma : ExpectAdd(a) /\ AddOp(a, NoFwd))
-          \/ (\E i \in DOMAIN ins : RemoveOp(i))
-     ELSE /\ hist[Len(hist)].op = "remove"
-          /\ \/ (\E a \in Sigma : AddOp(a, NoFwd))
-             \/ ToStr(FALSE)
+  IF ~Removed
+  THEN \/ (Len(hist) < RemAdds /\ \E a \in RemSigma : ExpectAdd(a) /\ AddOp(a, NoFwd))
+       \/ (\E i \in DOMAIN ins : RemoveOp(i))
+  ELSE /\ hist[Len(hist)].op = "remove"
+       /\ \/ (\E a \in RemSigma : AddOp(a, NoFwd))
+          \/ ToStr(FALSE)
+
+\* afterfail: up to two accepted adds, then one call the specification expects to be REFUSED (an add, a
+\* replace_child by another name, a dot assignment), then any one operation, then to_string  (C10: what follows a
+\* failed call behaves as if it had never been made -- including a second replace / remove of an untouched child)
+Failed == \E j \in DOMAIN hist : hist[j].exp = "reject"
+FailIdx == CHOOSE j \in DOMAIN hist : hist[j].exp = "reject" /\ \A k \in 1..(j - 1) : hist[k].exp # "reject"
+AfterFail ==
+  IF ~Failed
+  THEN \/ (Len(hist) < 2 /\ \E a \in RareSigma : ExpectAdd(a) /\ AddOp(a, NoFwd))
+       \/ (\E a \in RareSigma : ~ExpectAdd(a) /\ AddOp(a, NoFwd))
+       \/ (\E i \in DOMAIN ins : \E a \in RareSigma : ~ExpectReplace(i, a) /\ ReplaceOp(i, a))
+       \/ (\E a \in RareSigma : Count(ins, a) = 0 /\ ~ExpectAdd(a) /\ DotElem(a))
+  ELSE IF Len(hist) = FailIdx           \* exactly one operation of any kind right after the refused call
+  THEN \/ (\E a \in RareSigma : AddOp(a, NoFwd))
+       \/ (\E i \in DOMAIN ins : \E a \in RareSigma \cup {ins[i]} : ReplaceOp(i, a))
+       \/ (\E i \in DOMAIN ins : RemoveOp(i))
+       \/ (\E a \in RareSigma : DotElem(a))
+       \/ (\E a \in RareSigma : DotNone(a))
+       \/ ToStr(FALSE)
+  ELSE Len(hist) = FailIdx + 1 /\ hist[Len(hist)].op # "tostring" /\ ToStr(FALSE)
 
 Next == /\ Fixed
         /\ CASE Family = "uniform" -> Uniform
@@ -145,6 +189,8 @@ Next == /\ Fixed
              [] Family = "perms" -> Perms
              [] Family = "removal" -> Removal
              [] Family = "cover" -> Cover
+             [] Family = "afterfail" -> AfterFail
+             [] Family = "wordrem" -> WordRem
 Spec == Init /\ [][Next]_vars
 
 \* a behaviour is emitted at the leaves of the exploration (interior nodes are prefixes of leaves)
@@ -153,5 +199,7 @@ Leaf == CASE Family = "uniform" -> Len(hist) = Depth
           [] Family = "perms" -> Ended
           [] Family = "removal" -> Removed /\ hist[Len(hist)].op # "remove"
           [] Family = "cover" -> Ended
+          [] Family = "wordrem" -> Ended
+          [] Family = "afterfail" -> Failed /\ Len(hist) > FailIdx /\ (Ended \/ Len(hist) = FailIdx + 2)
 Emit == Leaf => Report([type |-> T, chk |-> Chk, fam |-> Family, ops |-> hist])
 ====
